@@ -2,6 +2,7 @@ import RlModel.Lemmas.Exec
 import RlModel.Lemmas.ExecNull
 import RlModel.Lemmas.ExecAgg
 import RlModel.Lemmas.ExecSorted
+import RlModel.Lemmas.ExecWiden
 /-!
 C11 — all physical implementations of an operator agree.
 
@@ -118,8 +119,12 @@ example : flat (topNExec 2 1 [{ key := fun r => r.getD 0 .null, desc := true }] 
 
 /-! ## hash joins agree with nested-loop joins — when keys are comparable
 
-Since the `fix:` commit "a join key containing NULL never matches" the executors skip NULL keys like
-the spec; what remains forced is the same-type part of `KeysComparable` (Int32 vs Int64 keys). -/
+`hashJoin`, `hashSemiJoin`, `hashSemiJoin2`, `mergeJoin` are the executors' bodies on the key vectors
+they are given.  Since the `fix:` commit "a join key containing NULL never matches" they skip NULL keys
+like the spec; `KeysComparable` (structural = SQL equality of NULL-free keys) is what they need of
+the key vectors — false for raw Int32 vs Int64 keys (`hash_raw_keys_need_widening`), true for every
+data once the keys went through `join_key` (`widen_keys_comparable`): the theorems about the executors
+themselves (`hashJoinW`, …, section "join keys compare by value" at the end) have no such hypothesis. -/
 
 /-- with NO hypothesis: the hash join of every type returns the canonical bag `joinBag` (pairs whose
 NULL-free key vectors are structurally equal, padded unmatched left rows for left/full, padded
@@ -190,8 +195,10 @@ theorem keysComparable_null_free (lk rk : List (Row → Val)) (L R : List Row)
 example : KeysComparable [col0] [col0] [[.i32 1], [.null], [.i32 1]] [[.null], [.i32 1], [.i32 3]] := by
   unfold KeysComparable; decide
 
-/-- … and the rest of it is forced: Int32 and Int64 keys are SQL-equal but never structurally equal. -/
-theorem hash_eq_nl_unsound_int_width :
+/-- … and the rest of it is forced for RAW keys: Int32 and Int64 keys are SQL-equal but never
+structurally equal — this was the executor until the `fix:` commit "join keys compare by value"; it
+is why the key vectors are built through `join_key` (regression: `hashW_int_width_regression`). -/
+theorem hash_raw_keys_need_widening :
     ¬ (∀ (Ls Rs : List Chunk), (flat (hashJoin .inner [col0] [col0] 1 1 Ls Rs)).Perm
         (flat (nlJoin false (equiOn 1 [col0] [col0] (fun _ => some true)) 1 Ls Rs))) := by
   intro h
@@ -1163,15 +1170,6 @@ theorem merge_eq_spec (t : JoinType) (ht : t = .inner ∨ t = .leftOuter ∨ t =
 
 /-! ## hash semi / anti join with residual condition -/
 
-theorem holds_and3 (x y : Option Bool) : holds (and3 x y) = (holds x && holds y) := by
-  cases x with
-  | none => cases y with
-    | none => rfl
-    | some b => cases b <;> rfl
-  | some a => cases a <;> cases y with
-    | none => rfl
-    | some b => cases b <;> rfl
-
 theorem equiOn_split_resid (nL : Nat) (lk rk : List (Row → Val)) (cond : Pred) (l r : Row) (hl : l.length = nL) :
     holds (equiOn nL lk rk cond (l ++ r)) = (holds (keysEq3 (keyOf lk l) (keyOf rk r)) && holds (cond (l ++ r))) := by
   unfold equiOn keyOf
@@ -1512,5 +1510,102 @@ example : (flat (nlJoinG true true (fun r => sqlEq (r.getD 0 .null) (r.getD 1 .n
     [[[.i32 1], [.null]], [[.i32 2]]] [[[.i32 1]], [[.null], [.i32 3]]])).Perm
     [[.i32 1, .i32 1], [.null, .null], [.i32 2, .null], [.null, .null], [.null, .i32 3]] := by decide
 
+/-! ## join keys compare by value: the executors themselves (`join_key`)
+
+The executors build their key vectors through `join_key` (integer of any width → Int64): `hashJoinW`
+= `hashJoin` on `wk lk`, `wk rk`, and so on.  `widen_keys_comparable` discharges `KeysComparable` for
+EVERY data (of the model's value universe: no DECIMAL / DOUBLE keys), and the join condition does not
+see the widening (`equiOn_wk`): hash and merge joins equal the nested-loop join and the spec on the
+ORIGINAL keys without any hypothesis about the keys. -/
+
+theorem c11_widen_keys_comparable (lk rk : List (Row → Val)) (L R : List Row) :
+    KeysComparable (wk lk) (wk rk) L R := widen_keys_comparable lk rk L R
+
+/-- hash join (inner, left / right / full outer) = the spec's join on `lk = rk`, for all data. -/
+theorem hashW_eq_spec (t : JoinType) (ht : t = .inner ∨ t = .leftOuter ∨ t = .rightOuter ∨ t = .fullOuter)
+    (lk rk : List (Row → Val)) (nL nR : Nat) (Ls Rs : List Chunk) (hlen : ∀ l ∈ flat Ls, l.length = nL) :
+    (flat (hashJoinW t lk rk nL nR Ls Rs)).Perm
+      (joinRel t (equiOn nL lk rk (fun _ => some true)) nL nR (flat Ls) (flat Rs)) := by
+  have h := hash_eq_spec_partial t ht (wk lk) (wk rk) nL nR Ls Rs hlen (widen_keys_comparable lk rk _ _)
+  rw [equiOn_wk] at h
+  exact h
+
+/-- hash join = nested-loop join, all four types, for all data. -/
+theorem hashW_eq_nl (t : JoinType) (ht : t = .inner ∨ t = .leftOuter ∨ t = .rightOuter ∨ t = .fullOuter)
+    (lk rk : List (Row → Val)) (nL nR : Nat) (Ls Rs : List Chunk) (hlen : ∀ l ∈ flat Ls, l.length = nL) :
+    (flat (hashJoinW t lk rk nL nR Ls Rs)).Perm
+      (flat (nlJoinG (t == .leftOuter || t == .fullOuter) (t == .rightOuter || t == .fullOuter)
+        (equiOn nL lk rk (fun _ => some true)) nL nR Ls Rs)) :=
+  (hashW_eq_spec t ht lk rk nL nR Ls Rs hlen).trans (nl_eq_spec t ht _ nL nR Ls Rs).symm
+
+/-- hash semi / anti join = nested-loop semi / anti join, for all data. -/
+theorem hashW_semi_eq_nl (anti : Bool) (lk rk : List (Row → Val)) (nL : Nat) (Ls Rs : List Chunk)
+    (hlen : ∀ l ∈ flat Ls, l.length = nL) :
+    flat (hashSemiJoinW anti lk rk Ls Rs) =
+      flat (nlSemiJoin anti (equiOn nL lk rk (fun _ => some true)) Ls Rs) := by
+  have hk := widen_keys_comparable lk rk (flat Ls) (flat Rs)
+  unfold hashSemiJoinW
+  rw [← equiOn_wk]
+  cases anti
+  · exact hash_eq_nl_semi (wk lk) (wk rk) nL Ls Rs hlen hk
+  · exact hash_eq_nl_anti (wk lk) (wk rk) nL Ls Rs hlen hk
+
+/-- … with a residual condition too. -/
+theorem hashW_semi2_eq_nl (anti : Bool) (lk rk : List (Row → Val)) (cond : Pred) (nL : Nat) (Ls Rs : List Chunk)
+    (hlen : ∀ l ∈ flat Ls, l.length = nL) :
+    flat (hashSemiJoin2W anti lk rk cond Ls Rs) = flat (nlSemiJoin anti (equiOn nL lk rk cond) Ls Rs) := by
+  unfold hashSemiJoin2W
+  rw [← equiOn_wk]
+  exact hash_semi2_eq_nl anti (wk lk) (wk rk) cond nL Ls Rs hlen (widen_keys_comparable lk rk _ _)
+
+/-- merge join = hash join on inputs sorted by their (widened) keys, for all data. -/
+theorem mergeW_eq_hashW (t : JoinType) (lk rk : List (Row → Val)) (hlk : lk ≠ []) (hrk : rk ≠ []) (nL nR : Nat)
+    (Ls Rs : List Chunk)
+    (hsl : SortedBy rowCmp ((flat Ls).map (keyOf (wk lk)))) (hsr : SortedBy rowCmp ((flat Rs).map (keyOf (wk rk)))) :
+    (flat (mergeJoinW t lk rk nL nR Ls Rs)).Perm (flat (hashJoinW t lk rk nL nR Ls Rs)) :=
+  merge_eq_hash t (wk lk) (wk rk) (by simpa [wk] using hlk) (by simpa [wk] using hrk) nL nR Ls Rs hsl hsr
+
+/-- merge join = the spec's join on `lk = rk` on sorted inputs, for all data. -/
+theorem mergeW_eq_spec (t : JoinType) (ht : t = .inner ∨ t = .leftOuter ∨ t = .rightOuter ∨ t = .fullOuter)
+    (lk rk : List (Row → Val)) (hlk : lk ≠ []) (hrk : rk ≠ []) (nL nR : Nat) (Ls Rs : List Chunk)
+    (hsl : SortedBy rowCmp ((flat Ls).map (keyOf (wk lk)))) (hsr : SortedBy rowCmp ((flat Rs).map (keyOf (wk rk))))
+    (hlen : ∀ l ∈ flat Ls, l.length = nL) :
+    (flat (mergeJoinW t lk rk nL nR Ls Rs)).Perm
+      (joinRel t (equiOn nL lk rk (fun _ => some true)) nL nR (flat Ls) (flat Rs)) :=
+  (mergeW_eq_hashW t lk rk hlk hrk nL nR Ls Rs hsl hsr).trans (hashW_eq_spec t ht lk rk nL nR Ls Rs hlen)
+
+/-- the same with the sortedness stated on the RAW key columns, as the scan / `order` below the merge
+join delivers them: enough if every key column has one integer width (`sorted_widen`). -/
+theorem mergeW_eq_spec_raw_sorted (t : JoinType) (ht : t = .inner ∨ t = .leftOuter ∨ t = .rightOuter ∨ t = .fullOuter)
+    (lk rk : List (Row → Val)) (hlk : lk ≠ []) (hrk : rk ≠ []) (nL nR : Nat) (Ls Rs : List Chunk)
+    (hwl : ∀ x ∈ flat Ls, ∀ y ∈ flat Ls, RowSameWidth (keyOf lk x) (keyOf lk y))
+    (hwr : ∀ x ∈ flat Rs, ∀ y ∈ flat Rs, RowSameWidth (keyOf rk x) (keyOf rk y))
+    (hsl : SortedBy rowCmp ((flat Ls).map (keyOf lk))) (hsr : SortedBy rowCmp ((flat Rs).map (keyOf rk)))
+    (hlen : ∀ l ∈ flat Ls, l.length = nL) :
+    (flat (mergeJoinW t lk rk nL nR Ls Rs)).Perm
+      (joinRel t (equiOn nL lk rk (fun _ => some true)) nL nR (flat Ls) (flat Rs)) :=
+  mergeW_eq_spec t ht lk rk hlk hrk nL nR Ls Rs (sorted_widen lk _ hwl hsl) (sorted_widen rk _ hwr hsr) hlen
+
+theorem chunking_irrelevant_hashjoinW (t : JoinType) (lk rk : List (Row → Val)) (nL nR k k' : Nat) (Ls Rs : List Chunk) :
+    hashJoinW t lk rk nL nR (rechunk k Ls) (rechunk k' Rs) = hashJoinW t lk rk nL nR Ls Rs :=
+  chunking_irrelevant_hashjoin t (wk lk) (wk rk) nL nR k k' Ls Rs
+
+theorem chunking_irrelevant_mergejoinW (t : JoinType) (lk rk : List (Row → Val)) (nL nR k k' : Nat) (Ls Rs : List Chunk) :
+    mergeJoinW t lk rk nL nR (rechunk k Ls) (rechunk k' Rs) = mergeJoinW t lk rk nL nR Ls Rs :=
+  chunking_irrelevant_mergejoin t (wk lk) (wk rk) nL nR k k' Ls Rs
+
+/-- Regression inputs: the witnesses of the former `*_unsound_int_width` theorems (INT 1 joined with
+BIGINT 1; SMALLINT / INT / BIGINT keys with NULLs and duplicates in a full outer merge join). -/
+theorem hashW_int_width_regression :
+    flat (hashJoinW .inner [col0] [col0] 1 1 [[[.i32 1]]] [[[.i64 1]]]) =
+      flat (nlJoin false (equiOn 1 [col0] [col0] (fun _ => some true)) 1 [[[.i32 1]]] [[[.i64 1]]]) ∧
+    flat (hashJoinW .inner [col0] [col0] 1 1 [[[.i32 1]]] [[[.i64 1]]]) = [[.i32 1, .i64 1]] ∧
+    flat (hashSemiJoinW true [col0] [col0] [[[.i16 2], [.i32 3]]] [[[.i64 2]]]) = [[.i32 3]] := by
+  decide
+
+theorem mergeW_int_width_regression :
+    (flat (mergeJoinW .fullOuter [col0] [col0] 1 1 [[[.null], [.i32 1], [.i32 1]], [[.i32 4]]] [[[.i64 1], [.i64 3]]])).Perm
+      [[.null, .null], [.i32 1, .i64 1], [.i32 1, .i64 1], [.null, .i64 3], [.i32 4, .null]] := by
+  decide
 
 end RlModel
